@@ -4,6 +4,7 @@ from hutil import S, unS, enc_val, canon_floats, canon_floats_w
 import parsergen as G
 
 MODEL = "C01"
+MODEL_ENTRY = "run_C01S"        # the driver's entry for C01 (Model/Spell.v): the parse and, next to it, the line description's verdicts
 PROP_FILES = ["Props/C01.v"]
 RULE = ("(format, assignment, spelling): for small formats (<= 2 options, <= 2 arguments, <= 1 command name) every interleaving of "
         "the option items among the positionals x every form ('--n=v', '--n v', '-nv', '-n v', bare flags, adjacent flags grouped, "
@@ -11,7 +12,7 @@ RULE = ("(format, assignment, spelling): for small formats (<= 2 options, <= 2 a
         "lenient; seeded random for larger formats (up to 5 options / 4 arguments / 2 command names, base formats). The expected "
         "Args observation is computed from the assignment alone. Non-trivial = >= 1 option item and >= 1 positional; distinct by "
         "(format, mode, tokens)")
-THEOREMS = ["access_agrees", "unset_reports_default", "parse_spells_options (partial: stage 1)"]
+THEOREMS = ["parse_spells", "parse_spells_stage1", "parse_spells_stage2", "parse_spells_not_vacuous", "spelling_parses", "spelled_options_marked_set", "unspelled_option_default", "spelled_single_option", "spelled_multi_option", "spelled_argument_set", "spelled_argument_value", "access_agrees_*", "unset_*_reports_default", "tail_is_never_read_as_options", "spelled_lines_mode_independent"]
 TRUSTED = ["the expected observation is computed by an independent Python function from the assignment (oracle)"]
 ASSUMPTIONS = ["lines satisfy the side conditions of DESIGN.md C01 (separated values and pre-'--' positionals do not start with '-' and are "
                "not empty, an omitted optional value is not followed by a positional, an omitted command name is not followed by a "
@@ -165,20 +166,26 @@ def option_items(levels, asg):
 
 def forms(o, text):
     """token groups that spell one option occurrence; each is a list of 1-2 tokens"""
+    return [f[0] for f in forms_d(o, text)]
+
+
+def forms_d(o, text):
+    """(tokens, item of the line description of Model/Spell.v) for every way to write one option occurrence"""
     fs = []
     if text is None or text == "BARE":
-        fs.append(["--" + o["long"]])
+        tag = 0 if text is None else 2
+        fs.append((["--" + o["long"]], [tag, S(o["long"]), 1]))
         if o["short"]:
-            fs.append(["-" + o["short"]])
+            fs.append((["-" + o["short"]], [tag, S(o["long"]), 0]))
         return fs
-    fs.append(["--" + o["long"] + "=" + text])
+    fs.append((["--" + o["long"] + "=" + text], [1, S(o["long"]), 0, S(text)]))
     sep_ok = text != "" and not text.startswith("-")
     if sep_ok:
-        fs.append(["--" + o["long"], text])
+        fs.append((["--" + o["long"], text], [1, S(o["long"]), 1, S(text)]))
     if o["short"]:
-        fs.append(["-" + o["short"] + text])
+        fs.append((["-" + o["short"] + text], [1, S(o["long"]), 2, S(text)]))
         if sep_ok:
-            fs.append(["-" + o["short"], text])
+            fs.append((["-" + o["short"], text], [1, S(o["long"]), 3, S(text)]))
     return fs
 
 
@@ -215,7 +222,7 @@ def spell_all(levels, asg, rng=None, limit=None):
     for k in range(len(cns), -1, -1):
         for names in itertools.product(*[[c["name"]] + c["aliases"] for c in cns[:k]]):
             cn_choices.append(list(names))
-    item_forms = [forms(o, t) for (o, t) in items]
+    item_forms = [forms_d(o, t) for (o, t) in items]
     results = []
 
     def build(names, perm, marks, fsel, dd):
@@ -229,26 +236,41 @@ def spell_all(levels, asg, rng=None, limit=None):
             if pos[0] == c["name"] or pos[0] in c["aliases"]:
                 return None
         toks, oi, pi = [], 0, 0
+        # the line description (Model/Spell.v): representable when the command names come first
+        d_items, d_tail, d_ok = [], None, True
         for i, m in enumerate(marks):
             if dd is not None and i == dd:
                 toks.append("--")
+                d_tail = []
             if m == "o":
                 it = perm[oi]
                 o, t = items[it]
                 oi += 1
-                toks.extend(fsel[it])
+                toks.extend(fsel[it][0])
+                d_items.append(fsel[it][1])
+                if pi < k:
+                    d_ok = False          # an option in front of a command name
                 if t == "BARE":
                     if i + 1 < len(marks) and marks[i + 1] == "p" and not (dd is not None and dd == i + 1):
                         return None
             else:
                 v = pos_all[pi]
-                pi += 1
                 if (dd is None or i < dd) and (v == "" or (v.startswith("-") and v != "-")):
                     return None
                 toks.append(v)
+                if pi < k:
+                    if d_tail is not None:
+                        d_ok = False      # a command name after "--"
+                elif d_tail is not None:
+                    d_tail.append(S(v))
+                else:
+                    d_items.append([4, S(v)])
+                pi += 1
         if dd is not None and dd == len(marks):
             toks.append("--")
-        return toks
+            d_tail = []
+        desc = [[S(n) for n in names], d_items, [] if d_tail is None else [d_tail]] if d_ok else None
+        return toks, desc
 
     space = []
     for names in cn_choices:
@@ -279,8 +301,8 @@ def spell_all(levels, asg, rng=None, limit=None):
     return results
 
 
-def group_flags(toks, levels):
-    """merge two adjacent single-letter flag tokens '-a' '-b' into '-ab' (one variant)"""
+def group_flags(toks, levels, desc=None):
+    """merge two adjacent single-letter flag tokens '-a' '-b' into '-ab' (one variant); -> (tokens, description) or None"""
     shorts = {o["short"]: o for o in G.fmt_options(levels) if o["short"]}
     for i in range(len(toks) - 1):
         a, b = toks[i], toks[i + 1]
@@ -288,7 +310,30 @@ def group_flags(toks, levels):
            len(b) >= 2 and b[0] == "-" and b[1] != "-" and b[1] in shorts:
             if "--" in toks[:i + 1]:
                 break
-            return toks[:i] + ["-" + a[1] + b[1:]] + toks[i + 2:]
+            return toks[:i] + ["-" + a[1] + b[1:]] + toks[i + 2:], group_desc(desc, levels)
+    return None
+
+
+def group_desc(desc, levels):
+    """the same merge on the line description: the first short flag item followed by a short-form item"""
+    if desc is None:
+        return None
+    names, items, tail = desc
+    longs = {o["long"]: o for o in G.fmt_options(levels)}
+    for i in range(len(items) - 1):
+        x, y = items[i], items[i + 1]
+        if x[0] == 0 and x[2] == 0 and okind(longs[unS(x[1])]) == "flag":
+            if y[0] == 0 and y[2] == 0:
+                g = [3, [x[1], y[1]], []]
+            elif y[0] == 2 and y[2] == 0:
+                g = [3, [x[1]], [y[1], [2]]]
+            elif y[0] == 1 and y[2] == 2:
+                g = [3, [x[1]], [y[1], [0, y[3]]]]
+            elif y[0] == 1 and y[2] == 3:
+                g = [3, [x[1]], [y[1], [1, y[3]]]]
+            else:
+                continue
+            return [names, items[:i] + [g] + items[i + 2:], tail]
     return None
 
 
@@ -364,31 +409,31 @@ def gen(rng, tier, info):
     for fi in SMALL:
         levels = G.SMALL_FORMATS[fi]
         for asg in assignments(levels, rng, n_asg):
-            for toks in spell_all(levels, asg, rng, limit=per_asg):
-                variants = [toks]
-                g = group_flags(toks, levels)
+            for toks, desc in spell_all(levels, asg, rng, limit=per_asg):
+                variants = [(toks, desc)]
+                g = group_flags(toks, levels, desc)
                 if g:
                     variants.append(g)
-                for t in variants:
+                for t, dsc in variants:
                     for lenient in (0, 1):
                         key = (fi, lenient, tuple(t))
                         if key not in seen:
                             seen.add(key)
-                            cases.append({"f": fi, "len": lenient, "toks": t, "asg": asg})
+                            cases.append({"f": fi, "len": lenient, "toks": t, "asg": asg, "ld": dsc})
                             per_fmt[fi] = per_fmt.get(fi, 0) + 1
     n_small = len(cases)
     n_rand = {"quick": 6000, "thorough": 60000, "search": 3000}[tier]
     for fi in LARGE:
         levels = G.SMALL_FORMATS[fi]
         for asg in assignments(levels, rng, max(2, n_asg // 2)):
-            for toks in spell_all(levels, asg, rng, limit=n_rand // (len(LARGE) * max(2, n_asg // 2))):
-                g = group_flags(toks, levels)
-                for t in ([toks] + ([g] if g else [])):
+            for toks, desc in spell_all(levels, asg, rng, limit=n_rand // (len(LARGE) * max(2, n_asg // 2))):
+                g = group_flags(toks, levels, desc)
+                for t, dsc in ([(toks, desc)] + ([g] if g else [])):
                     lenient = rng.randint(0, 1)
                     key = (fi, lenient, tuple(t))
                     if key not in seen:
                         seen.add(key)
-                        cases.append({"f": fi, "len": lenient, "toks": t, "asg": asg})
+                        cases.append({"f": fi, "len": lenient, "toks": t, "asg": asg, "ld": dsc})
     if len(cases) > cap:
         head = cases[:n_small]
         if len(head) > cap * 3 // 4:
@@ -398,12 +443,15 @@ def gen(rng, tier, info):
     info["exhaustive"] = len(cases) <= cap
     info["distribution"] = {"small_formats": len(SMALL), "larger_formats": len(LARGE), "assignments_per_format": n_asg,
                             "spellings_small": n_small, "total": len(cases),
+                            "with_line_description (theorem domain: command names first)": sum(1 for c in cases if c.get("ld")),
+                            "grouped_short_flag_descriptions": sum(1 for c in cases if c.get("ld") and any(i[0] == 3 for i in c["ld"][1])),
                             "per_small_format": {str(k): v for k, v in sorted(per_fmt.items())}}
     return cases
 
 
 def wire(c):
-    return [G.wire_levels(G.SMALL_FORMATS[c["f"]]), c["len"], [S(t) for t in c["toks"]], [S(x) for x in EXTRA]]
+    return [G.wire_levels(G.SMALL_FORMATS[c["f"]]), c["len"], [S(t) for t in c["toks"]], [S(x) for x in EXTRA],
+            [c["ld"]] if c.get("ld") else []]
 
 
 def describe(c):
@@ -417,7 +465,12 @@ def run_impl(c):
 
 
 def canon_impl(c, o):
-    return canon_floats(o)
+    # next to the parse result: what the model must answer for the line description - the format is fmt_ok, the line is
+    # wf_line, render gives exactly these tokens, denote gives exactly what the implementation parsed
+    o = canon_floats(o)
+    if c.get("ld") and o[0] == 0:
+        return [o, [[1, 1, [S(t) for t in c["toks"]], o[1]]]]
+    return [o, [[-7]] if c.get("ld") else []]
 
 
 def canon_model_w(c, w):
